@@ -107,9 +107,12 @@ impl Mul<f64> for Duration {
         let mut new_val = q;
         let ten: f64 = 10.0;
 
+        // 10^38 is the largest power of ten which fits in an i128: stop refining the precision there.
+        const MAX_PRECISION: i32 = 38;
+
         loop {
-            if (new_val.floor() - new_val).abs() < f64::EPSILON {
-                // Yay, we've found the precision of this number
+            if (new_val.floor() - new_val).abs() < f64::EPSILON || p >= MAX_PRECISION {
+                // Yay, we've found the precision of this number (or we cannot represent more digits anyway)
                 break;
             }
             // Multiply by the precision
